@@ -1,19 +1,39 @@
 (* C18 driver: reads
-   "E <op> <kind> <otherdev> <srcmissing> <nonempty> <ok> <srcpresent> <srcorig> <dstorig> <thirdok> <size> <variant>" *)
+   "E <op> <kind> <otherdev> <srcmissing> <nonempty> <ok> <srcpresent> <srcorig> <dstorig> <thirdok> <size> <variant> ..."
+   Two copy strategies are modelled (write through the destination path / temporary file + rename over the
+   destination name). A run must agree with ONE of them throughout: the first case on which the two models
+   differ and the implementation agrees with exactly one decides; every case is then judged against that one.
+   The decision is printed as STATS strategy=... and written to <dir of cases>/strategy.txt for the in-Coq
+   cross-check. Result lines repeat the case line verbatim (details go to INFO lines). *)
 let () =
-  let cases = ref 0 and specfail = ref 0 and mismatch = ref 0 in
+  let lines = ref [] in
   iter_lines Sys.argv.(1) (fun line ->
     match split_ws line with
     | "E" :: op :: kind :: od :: sm :: ne :: ok :: sp :: so :: d :: th :: _ ->
-        incr cases;
         let n s = n_of_int (int_of_string s) in
         let v = check_case (n op) (n kind) (n od) (n sm) (n ne) (n ok) (n sp) (n so) (n d) (n th) in
-        if not v.spec then begin
-          incr specfail; Printf.printf "SPECFAIL %s\n" line end
-        else if not v.model_eq then begin
-          incr mismatch;
-          let m = model_fields (n op) (n kind) (n od) (n sm) (n ne) in
-          Printf.printf "MISMATCH %s model(ok,srcpresent,srcorig,dstorig,third)=%s\n" line
-            (String.concat "" (List.map (fun b -> if b then "1" else "0") m)) end
+        lines := (line, v, (n op, n kind, n od, n sm, n ne)) :: !lines
     | _ -> ());
-  Printf.printf "STATS cases=%d specfail=%d mismatch=%d drift=0\n" !cases !specfail !mismatch
+  let all = List.rev !lines in
+  let strategy =
+    match List.find_opt (fun (_, v, _) -> v.spec && v.model_eq <> v.model_eq_replace) all with
+    | Some (_, v, _) -> if v.model_eq_replace then 1 else 0
+    | None -> 0 in
+  let decided = List.exists (fun (_, v, _) -> v.spec && v.model_eq <> v.model_eq_replace) all in
+  let cases = ref 0 and specfail = ref 0 and mismatch = ref 0 in
+  List.iter (fun (line, v, (op, kind, od, sm, ne)) ->
+    incr cases;
+    if not v.spec then begin
+      incr specfail; Printf.printf "SPECFAIL %s\n" line end
+    else if not (verdict_ok_for (n_of_int strategy) v) then begin
+      incr mismatch;
+      Printf.printf "MISMATCH %s\n" line;
+      let show s = String.concat "" (List.map (fun b -> if b then "1" else "0") (model_fields_for (n_of_int s) op kind od sm ne)) in
+      Printf.printf "INFO model(ok,srcpresent,srcorig,dstorig,third) through=%s replace=%s run-follows=%s for: %s\n"
+        (show 0) (show 1) (if strategy = 1 then "replace" else "through") line end) all;
+  (try
+     let oc = open_out (Filename.concat (Filename.dirname Sys.argv.(1)) "strategy.txt") in
+     output_string oc (string_of_int strategy); close_out oc
+   with _ -> ());
+  Printf.printf "STATS cases=%d specfail=%d mismatch=%d drift=0 strategy=%s strategy_decided_by_a_case=%b\n"
+    !cases !specfail !mismatch (if strategy = 1 then "replace" else "through") decided
